@@ -359,11 +359,11 @@ func commandAction(fn func(ctx context.Context, c *cli.Context, proc *query.Proc
 		// Handle signals
 		ch := make(chan os.Signal, 1)
 		signal.Notify(ch, action.Signals...)
-		var signalReceived error
+		signalReceived := make(chan error, 1)
 
 		go func() {
 			sig := <-ch
-			signalReceived = query.NewSignalReceived(sig)
+			signalReceived <- query.NewSignalReceived(sig)
 			cancel()
 		}()
 
@@ -378,8 +378,10 @@ func commandAction(fn func(ctx context.Context, c *cli.Context, proc *query.Proc
 		}
 
 		err = fn(ctx, c, proc)
-		if signalReceived != nil {
-			err = signalReceived
+		select {
+		case e := <-signalReceived:
+			err = e
+		default:
 		}
 		return
 	}
